@@ -298,7 +298,7 @@ def run_scenario(sc, Probe):
     PLAN.update(sleep=[], fault=None)
     res['ref_exc'] = ref_exc
     _emit('scenario_end', sid=sc['id'])
-    # reap whatever the call left behind
+    # reap whatever the call left behind; the call is over, no worker may be running any more
     left = 0
     while True:
         try:
@@ -306,16 +306,22 @@ def run_scenario(sc, Probe):
         except ChildProcessError:
             break
         if pid == 0:
-            # still running children: the call is over, nothing may be running any more
             left += 1
-            try:
-                os.killpg(0, 0)
-            except OSError:
-                pass
             time.sleep(0.05)
-            if left > 20:
+            if left > 100:
                 break
-    res['left_running'] = left > 20
+    if left > 100:
+        for name in os.listdir('/proc'):
+            if name.isdigit():
+                try:
+                    with open('/proc/{}/stat'.format(name)) as f:
+                        ppid = int(f.read().rsplit(') ', 1)[1].split()[1])
+                    if ppid == os.getpid():
+                        os.kill(int(name), signal.SIGKILL)
+                        os.waitpid(int(name), 0)
+                except OSError:
+                    pass
+    res['left_running'] = left > 100
     return res
 
 
